@@ -799,14 +799,13 @@ x
         s1 = adj.sum(0)
         s2 = adj.sum(1)
         if c == 1:
-            s = dia_matrix((1. / s1, 0), shape=(self.V, self.V))
-            adj = adj * s
-            self.weights = wgraph_from_adjacency(adj).get_weights()
+            # scale each edge in place: the edge list keeps its order
+            self.weights = self.weights / \
+                np.asarray(s1).ravel()[self.edges[:, 1]]
             return np.asarray(s1)
         if c == 0:
-            s = dia_matrix((1. / s2.T, 0), shape=(self.V, self.V))
-            adj = s * adj
-            self.weights = wgraph_from_adjacency(adj).get_weights()
+            self.weights = self.weights / \
+                np.asarray(s2).ravel()[self.edges[:, 0]]
             return np.asarray(s2)
         if c == 2:
             s1 = dia_matrix((1. / np.sqrt(s1), 0),
